@@ -396,7 +396,9 @@ func (c *calcProduct) partiallySimplify() calcTerm {
 
 	// ALGORITHM DEVIATION: Divide instead of multiply if the reciprocal is shorter
 	for i := 1; i < len(terms); i++ {
-		if numeric, ok := terms[i].data.(*calcNumeric); ok {
+		// Note: This is only valid for numbers (not for percentages or dimensions)
+		// because the right side of a division must be a number
+		if numeric, ok := terms[i].data.(*calcNumeric); ok && numeric.unit == "" {
 			reciprocal := 1 / numeric.number
 			if multiply, ok := floatToStringForCalc(numeric.number); ok {
 				if divide, ok := floatToStringForCalc(reciprocal); ok && len(divide) < len(multiply) {
